@@ -57,7 +57,7 @@ def malformations(sc):
         add("line-count:" + v, [("line-count", v)], mention=["line-count"])
     for v in ("README.md", "a:b, c", "nocolon", ",", "a:b,,c:d"):
         add("affects:" + v, [("affects", v)], needs=["diff"], mention=["affects"])
-    for v in ("warn", "fatal", "", "errors", " error", "1", "warning,"):
+    for v in ("warn", "fatal", "", "errors", " error", "1", "warning,", "h\u0131nt", "warn\u0131ng", "\u0131nfo", "error\u017f"):
         add("severity:" + v, [("line-count", "<1"), ("severity", v)], mention=["severity"])
     add("lua:empty-path", [("check-lua", "")], mention=["check-lua"])
     add("lua:blank-path", [("check-lua", "   ")], mention=["check-lua"])
@@ -130,11 +130,15 @@ def run_job(job, ctx):
     m = table[job["m"]]
     r = rng("c13", job["seed"], m["id"], job["rep"])
     nfiles = r.randint(1, 4)
-    nhealthy = r.choice([0, 1, 3, 8, 20])
+    nhealthy = r.choice([0, 1, 3, 8, 20, 45])
     per = [[] for _ in range(nfiles)]
+    many_lua = nhealthy == 45      # a crowd of healthy scripted blocks behind the bad one (bounded task pools, early drains)
     for k in range(nhealthy):
-        per[r.randrange(nfiles)].append(healthy_block(r, "h%d" % k, sc))
-    which_file = r.choice([0, nfiles - 1])
+        if many_lua:
+            per[0].append(scenario.SBlock("h%d" % k, [("name", "h%d" % k), ("check-lua", sc["nil"])], ["x"], []))
+        else:
+            per[r.randrange(nfiles)].append(healthy_block(r, "h%d" % k, sc))
+    which_file = 0 if many_lua else r.choice([0, nfiles - 1])
     bad = scenario.SBlock("bad", [("name", "bad")] + list(m["attrs"]), list(m["lines"]), [])
     pos = r.choice(["first", "middle", "last"])
     lst = per[which_file]
